@@ -467,7 +467,12 @@ where
             let ping_out = self.zmtp_engine.on_tick(std::time::Instant::now());
             for action in ping_out.net_actions {
               if let NetAction::Send { data, .. } = action {
-                egress_buffer.push_priority(data);
+                // Sealed records carry an implicit sequence number: keep them in order.
+                if self.zmtp_engine.framer_is_passthrough() {
+                  egress_buffer.push_priority(data);
+                } else {
+                  egress_buffer.push(data, 0);
+                }
               }
             }
             for action in ping_out.app_actions {
@@ -511,7 +516,11 @@ where
                 for action in engine_out.net_actions {
                   match action {
                     NetAction::Send { data, .. } => {
-                      egress_buffer.push_priority(data);
+                      if self.zmtp_engine.framer_is_passthrough() {
+                        egress_buffer.push_priority(data);
+                      } else {
+                        egress_buffer.push(data, 0);
+                      }
                     }
                     NetAction::SetCork(enable) => {
                       #[cfg(target_os = "linux")]
